@@ -778,11 +778,102 @@ func mwAlias(ctx *Ctx) {
 	for _, sc := range mwAliasScenarios(ctx.Thor) {
 		mwAliasOne(ctx, sc)
 	}
+	mwLateRegistration(ctx)
+}
+
+// mwLateRegistration: registrations INTERLEAVED with traffic on one executor (Use / BatchItemUse called
+// after requests have already been served - "middlewares run in registration order" has no "registered
+// before the first request" clause). Every pattern over {message stage, item stage, both, none} of length
+// 1..4: before request k the k-th registration happens, and request k must run exactly the stages
+// registered so far, message stages outermost, each kind in registration order. (A chain built once and
+// cached, or a snapshot taken at the first request, shows only here.)
+func mwLateRegistration(ctx *Ctx) {
+	kinds := []string{"m", "i", "b", "-"}
+	var pats [][]string
+	var build func(prefix []string, k int)
+	build = func(prefix []string, k int) {
+		if len(prefix) > 0 {
+			pats = append(pats, append([]string{}, prefix...))
+		}
+		if k == 0 {
+			return
+		}
+		for _, x := range kinds {
+			build(append(prefix, x), k-1)
+		}
+	}
+	build(nil, 4)
+	for _, pat := range pats {
+		line := "# mw.late " + strings.Join(pat, "")
+		ctx.current = line
+		log := &mwEntryLog{}
+		exec := kmipserver.NewBatchExecutor()
+		exec.Route(kmip.OperationActivate, pwFunc(func(_ context.Context, pl kmip.OperationPayload) (kmip.OperationPayload, error) {
+			log.add("K")
+			return mwMkItemResp(5, 1).ResponsePayload, nil
+		}))
+		var ms, is []int
+		bad := false
+		for k, x := range pat {
+			id := k + 1
+			_, p := guard("mw-late", func() int {
+				if x == "m" || x == "b" {
+					exec.Use(func(next kmipserver.Next, c context.Context, msg *kmip.RequestMessage) (*kmip.ResponseMessage, error) {
+						log.add("Em" + strconv.Itoa(id))
+						resp, err := next(c, msg)
+						log.add("Xm" + strconv.Itoa(id))
+						return resp, err
+					})
+					ms = append(ms, id)
+				}
+				if x == "i" || x == "b" {
+					exec.BatchItemUse(func(next kmipserver.BatchItemNext, c context.Context, bi *kmip.RequestBatchItem) (*kmip.ResponseBatchItem, error) {
+						log.add("Ei" + strconv.Itoa(id))
+						resp, err := next(c, bi)
+						log.add("Xi" + strconv.Itoa(id))
+						return resp, err
+					})
+					is = append(is, id)
+				}
+				log.take()
+				exec.HandleRequest(context.Background(), ovMkMsg(1))
+				return 0
+			})
+			got := log.take()
+			var want []string
+			for _, m := range ms {
+				want = append(want, "Em"+strconv.Itoa(m))
+			}
+			for _, i := range is {
+				want = append(want, "Ei"+strconv.Itoa(i))
+			}
+			want = append(want, "K")
+			for j := len(is) - 1; j >= 0; j-- {
+				want = append(want, "Xi"+strconv.Itoa(is[j]))
+			}
+			for j := len(ms) - 1; j >= 0; j-- {
+				want = append(want, "Xm"+strconv.Itoa(ms[j]))
+			}
+			if p != "" {
+				got += " panic: " + p
+			}
+			if got != strings.Join(want, " ") && !bad {
+				bad = true
+				ctx.Res.Violate(report.Violation{Property: "C19", Oracle: "registration-order", Key: "mw:late-registration",
+					Detail: fmt.Sprintf("registrations interleaved with requests (m = Use, i = BatchItemUse, b = both, - = none; one request after each): request %d ran [%s]; registered so far, in order: [%s]", k+1, got, strings.Join(want, " ")), Line: line})
+			}
+		}
+		ctx.Add(line, "ok", true, "C19")
+		ctx.Res.Count("mw.late-registration")
+	}
 }
 
 // mwReplayExtra: the impl-only lines of this file.
 func mwReplayExtra(ctx *Ctx, l string) bool {
 	switch {
+	case strings.HasPrefix(l, "# mw.late "):
+		mwLateRegistration(ctx) // all patterns: cheap, and the line names the pattern
+		return true
 	case strings.HasPrefix(l, "# mw.overlap "):
 		sc, err := ovParse(l)
 		if err != nil {
